@@ -231,7 +231,7 @@ class C05(CheckBase):
         sizes = getattr(self, "_sweep_sizes", [])
         n_off = sum(sizes)
         ran = sum(1 for r in results if r["i"] < n_off)
-        return {"schemas": [it["name"] for it in self.ss.items], "schemas_rejected": self.ss.rejected,
+        return {**pw.shipped_coverage(self.ss), "schemas": [it["name"] for it in self.ss.items], "schemas_rejected": self.ss.rejected,
                 "truncation_sweep": {"files": sum(1 for s in sizes if s), "offsets": n_off, "offsets_run": ran,
                                      "exhaustive": bool(n_off) and ran == n_off,
                                      "note": "every prefix of these base files was read; exhaustive only for this sub-space"}}
